@@ -31,3 +31,41 @@ package gocql
 //@   modifies f.buf
 //@   ensures soft_panic() == (old(len(f.buf)) < 2)
 //@   ensures !soft_panic() ==> n == be16(old(f.buf), 0) && f.buf == old(f.buf[2:])
+
+// ---------------------------------------------------------------------------
+// uuid.go (RFC 4122; oracle in /verif/spec/bv.smt2 blocks uuid, hex)
+// ---------------------------------------------------------------------------
+
+//@ func TimeUUIDWith
+//@   props C19
+//@   ensures all(i, 0, 10, result[i] == uuid_v1_byte(t, clock, i))
+//@   ensures all(i, 0, 6, i < len(node) ==> result[10+i] == node[i])
+//@   ensures all(i, 0, 6, i >= len(node) ==> result[10+i] == 0)
+
+//@ func (u UUID) Version
+//@   props C19
+//@   ensures result == uuid_version(u)
+
+//@ func (u UUID) Variant
+//@   props C19
+//@   ensures (result == VariantIETF) == (u[8]&0xC0 == 0x80)
+
+//@ func (u UUID) Timestamp
+//@   props C19
+//@   ensures uuid_version(u) == 1 ==> result == uuid_ts(u)
+//@   ensures uuid_version(u) != 1 ==> result == 0
+
+//@ func (u UUID) Clock
+//@   props C19
+//@   ensures uuid_version(u) == 1 ==> result == uuid_clock(u)
+
+//@ func (u UUID) Node
+//@   props C19
+//@   ensures uuid_version(u) == 1 ==> len(result) == 6 && all(i, 0, 6, result[i] == u[10+i])
+//@   ensures uuid_version(u) != 1 ==> result == nil
+
+//@ func (u UUID) String
+//@   props C19
+//@   loop 0: unroll 16
+//@   ensures len(result) == 36 && result[8] == '-' && result[13] == '-' && result[18] == '-' && result[23] == '-'
+//@   ensures all(i, 0, 16, result[uuid_off(i)] == hexdig(u[i]>>4) && result[uuid_off(i)+1] == hexdig(u[i]&15))
